@@ -13,7 +13,7 @@ use std::collections::HashMap;
 // Macro shadows: error *messages* are abstracted to arbitrary strings, `trace!` has no effect,
 // `assert!`/`assert_eq!`/`panic!` become proof obligations (vpanic requires false).
 macro_rules! format { ($fmt:literal $(, $arg:expr)* $(,)?) => { { $( crate::fmt_arg(&$arg); )* crate::opaque_string() } }; ($($t:tt)*) => { crate::opaque_string() } }
-macro_rules! trace { ($($t:tt)*) => { () } }
+macro_rules! trace { ($fmt:literal $(, $arg:expr)* $(,)?) => { { $( crate::fmt_arg(&$arg); )* } }; ($($t:tt)*) => { () } }
 macro_rules! assert_eq { ($a:expr, $b:expr) => { if !($a == $b) { crate::vpanic() } } }
 macro_rules! assert { ($a:expr) => { if !($a) { crate::vpanic() } } }
 // log facade at debug level or above: every argument must be *public* (C17); see prelude/deps_auth.rs
